@@ -136,11 +136,44 @@ def case_state(rng, big):
     return Case(ops=ops, tag=f"state-{'many' if nchunks > 10 else 'few'}")
 
 
+def case_final_second(rng, big):
+    """LIST / `eph list` while a live chunk has exactly 1 s, 0.999999999 s, 0.5 s, 1 ns left, at the deadline and after it:
+    a chunk is listed exactly while now < deadline (its remaining TTL is then printed as 0)"""
+    ops = [cfg(cap=4096, min=30, max=21600, default=60)]
+    t_short = rng.choice([30, 31, 45, 60])
+    t_long = t_short + rng.choice([1, 2, 30, 600])
+    ops.append(f"put a {hx(b'final-second-' + bytes(rng.randrange(256) for _ in range(3)))} {t_short}")
+    ops.append(f"put b {hx(b'longer-lived-' + bytes(rng.randrange(256) for _ in range(3)))} {t_long}")
+    if rng.random() < 0.5:
+        ops.append(f"put c {hx(b'same-deadline-' + bytes(rng.randrange(256) for _ in range(2)))} {t_short}")
+    now = 0
+    for left in [SECOND + 1, SECOND, SECOND - 1, SECOND // 2, 1, 0, -1, -SECOND]:
+        target = t_short * SECOND - left
+        ops.append(f"adv {target - now}")
+        now = target
+        ops.append("list -")
+        if rng.random() < 0.6:
+            ops.append("cli - LIST *")
+        if rng.random() < 0.3:
+            ops.append("cli - STATUS *")
+    # and the same for the longer-lived chunk when it is the only one left
+    for left in [SECOND, 1, 0]:
+        target = t_long * SECOND - left
+        if target >= now:
+            ops.append(f"adv {target - now}")
+            now = target
+            ops.append("list -")
+    return Case(ops=ops, tag="final-second")
+
+
 def generate(ctx, budget):
     out = []
     for i in range(budget):
         big = ctx.tier == "thorough" and i % 10 == 0
-        out.append(case_state(ctx.rng, big) if i % 2 == 0 else case_rt(ctx.rng, big))
+        if i % 8 == 7:
+            out.append(case_final_second(ctx.rng, big))
+        else:
+            out.append(case_state(ctx.rng, big) if i % 2 == 0 else case_rt(ctx.rng, big))
     return out
 
 
